@@ -8,15 +8,14 @@ tied to `vm/neovm/types` by the correspondence harness `harness/cmd/c14`.
 namespace OntVerif.Props.C14
 open OntVerif.Util OntVerif.Model.Codec OntVerif.Model.NeoVal OntVerif.Proofs.NeoVal
 
-/-- **Cycles are rejected** (the third clause of the property): for every heap, every value from which a reference cycle
-is reachable — through any element position, through map entries, at any distance — and every Go map iteration order,
-the detector answers "circular", and `Serialize` and `BuildParamToNative` return the circular-reference error (they
-neither produce bytes, nor run into the size limit, nor fail to return). -/
+/-- **Cycles are rejected by the detector and by `Serialize`** (third clause of the property, the part that is still
+unrepaired): for every heap, every value from which a reference cycle is reachable — through any element position,
+through map entries, at any distance — and every Go map iteration order, the detector answers "circular" and `Serialize`
+returns the circular-reference error (it neither produces bytes nor runs into the size limit).
+`BuildParamToNative` was repaired in the tree (060d8e9c) and has its own plain theorem below. -/
 def CycleRejected (var : Variant) : Prop :=
   ∀ (perm : Perm) (h : Heap) (v : Val), perm.valid → CycleReachable h v →
-    (∀ path, detect var perm path h v = true) ∧
-    serialize var perm h v = .error .cycle ∧
-    buildParamToNative var perm h v = .error .cycle
+    (∀ path, detect var perm path h v = true) ∧ serialize var perm h v = .error .cycle
 
 /-- full statement for the sound detector: no hypothesis on the heap (dangling references, ill-sorted maps, any size) -/
 theorem C14_cycle_rejected : CycleRejected .sound := by
@@ -24,9 +23,38 @@ theorem C14_cycle_rejected : CycleRejected .sound := by
   have hd : ∀ path, detect .sound perm path h v = true := by
     intro path
     simp [detect, detSound, hasCycle_of_reachable h v hc]
-  refine ⟨hd, ?_, ?_⟩
-  · simp [serialize, serFuel, MAX_BYTEARRAY_SIZE, ser, hd]
-  · simp [buildParamToNative, natv, hd]
+  exact ⟨hd, by simp [serialize, serFuel, MAX_BYTEARRAY_SIZE, ser, hd]⟩
+
+/-- **`BuildParamToNative` always returns** (code as it is, both detector variants, every heap, value and iteration
+order): the recursion budget `|heap| + 2` of the model is never exhausted, because the containers on the recursion
+path are pairwise different objects.  Before 060d8e9c this was false (`a = [1, a]` recursed until the stack limit). -/
+theorem C14_buildParam_terminates (var : Variant) (perm : Perm) (h : Heap) (v : Val) :
+    buildParamToNative var perm h v ≠ .error .fuel :=
+  natvP_no_fuel var perm h _ [] [] v List.nodup_nil (by intro x hx; cases hx) (by simp)
+
+/-- **`BuildParamToNative` rejects every value from which a cycle is reachable, at any element position** (code as it
+is, both detector variants, every iteration order): it never produces bytes and never diverges; the error is the
+circular-reference error, or `ERR_BAD_TYPE` when the traversal meets a map first (a map is refused before anything below
+it is visited — so a cycle that runs through a map value cannot be entered).  On heaps without maps the error is the
+circular-reference error. -/
+theorem C14_buildParam_cycle_rejected (var : Variant) (perm : Perm) (h : Heap) (nd : NoDangling h) (v : Val)
+    (hv : ∀ r, v = .ref r → r < h.length) (hc : CycleReachable h v) :
+    buildParamToNative var perm h v = .error .cycle ∨
+    (buildParamToNative var perm h v = .error .badtype ∧ ∃ (r : Ref) (es : List Entry), h[r]? = some (Obj.map es)) := by
+  cases hr : buildParamToNative var perm h v with
+  | ok out => exact absurd hc (natvP_ok_acyclic var perm h _ _ _ _ out hr)
+  | error e =>
+    rcases natvP_err var perm h nd _ _ _ _ e hv hr with rfl | rfl | ⟨rfl, hm⟩
+    · exact .inl rfl
+    · exact absurd hr (C14_buildParam_terminates var perm h v)
+    · exact .inr ⟨rfl, hm⟩
+
+theorem C14_buildParam_cycle_rejected_nomap (var : Variant) (perm : Perm) (h : Heap) (nd : NoDangling h) (v : Val)
+    (hv : ∀ r, v = .ref r → r < h.length) (hm : ∀ (r : Ref) (es : List Entry), h[r]? ≠ some (Obj.map es))
+    (hc : CycleReachable h v) : buildParamToNative var perm h v = .error .cycle := by
+  rcases C14_buildParam_cycle_rejected var perm h nd v hv hc with h1 | ⟨_, r, es, h2⟩
+  · exact h1
+  · exact absurd h2 (hm r es)
 
 /-- **The sound detector is exact, and its explicit bound is adequate**: on a heap without dangling references the `|heap|`
 rounds of the cycle search (each round inspects every object once — polynomial also on DAG-shaped sharing) never reject
@@ -50,8 +78,8 @@ def cexHeap : Heap := [.arr [.int 1, .ref 0]]
 theorem cexHeap_cyclic : CycleReachable cexHeap (.ref 0) :=
   ⟨0, 0, .refl 0, ⟨_, rfl, by decide⟩, .refl 0⟩
 
-/-- **as shipped the statement is false**: on `a = [1, a]` the detector answers "fine" and `BuildParamToNative` does not
-return (`.fuel`: the recursion nests deeper than the number of objects and nothing can stop it). -/
+/-- **as shipped the statement is false**: on `a = [1, a]` the detector answers "fine" (and `Serialize` unrolls the
+cycle until the size limit). -/
 theorem C14_asShipped_counterexample : ¬ CycleRejected .asShipped := by
   intro hS
   have h := (hS Perm.id cexHeap (.ref 0) (fun _ _ _ => List.Perm.refl _) cexHeap_cyclic).1 []
@@ -59,26 +87,26 @@ theorem C14_asShipped_counterexample : ¬ CycleRejected .asShipped := by
   decide
 
 theorem C14_asShipped_witness_detector : detect .asShipped Perm.id [] cexHeap (.ref 0) = false := by decide
-theorem C14_asShipped_witness_native :
-    buildParamToNative .asShipped Perm.id cexHeap (.ref 0) = .error .fuel := by decide
-theorem C14_sound_witness : detect .sound Perm.id [] cexHeap (.ref 0) = true ∧
-    buildParamToNative .sound Perm.id cexHeap (.ref 0) = .error .cycle := by decide
+/-- the old `Native.Invoke` witness: with the shipped detector the on-path set now stops it (position 1), and a cycle
+through a map value ends at the map -/
+theorem C14_buildParam_witness :
+    buildParamToNative .asShipped Perm.id cexHeap (.ref 0) = .error .cycle ∧
+    buildParamToNative .asShipped Perm.id [.arr [.int 1, .ref 1], .map [⟨[], .int 0, .int 0⟩, ⟨[1], .int 1, .ref 0⟩]] (.ref 0)
+      = .error .badtype := by decide
+theorem C14_sound_witness : detect .sound Perm.id [] cexHeap (.ref 0) = true := by decide
 
 /-- **What the shipped detector does guarantee** (`_partial`: the statement restricted to cycles along the first-element
 chain): if following element 0 of arrays/structs (and the only entry of one-entry maps) from object `r` leads back to
-`r`, the detector answers "circular" under every iteration order and `Serialize` / `BuildParamToNative` return the error.
+`r`, the detector answers "circular" under every iteration order and `Serialize` returns the error.
 Missing w.r.t. `CycleRejected`: cycles that use an element at a position > 0 or an entry of a map with ≥ 2 entries
 (`C14_asShipped_counterexample`). -/
 theorem C14_cycle_rejected_asShipped_partial (perm : Perm) (hv : perm.valid) (h : Heap) (r : Ref)
     (hc : FirstCycle h r) :
     (∀ path, detect .asShipped perm path h (.ref r) = true) ∧
-    serialize .asShipped perm h (.ref r) = .error .cycle ∧
-    buildParamToNative .asShipped perm h (.ref r) = .error .cycle := by
+    serialize .asShipped perm h (.ref r) = .error .cycle := by
   have hd : ∀ path, detect .asShipped perm path h (.ref r) = true := fun path =>
     detShipped_of_neverEnds perm hv path h _ r [] (neverEnds_of_firstCycle hc)
-  refine ⟨hd, ?_, ?_⟩
-  · simp [serialize, serFuel, MAX_BYTEARRAY_SIZE, ser, hd]
-  · simp [buildParamToNative, natv, hd]
+  exact ⟨hd, by simp [serialize, serFuel, MAX_BYTEARRAY_SIZE, ser, hd]⟩
 
 /-- non-vacuity: `a = [a, 1]` and the one-entry map `m = {k: [m]}` have first-element cycles -/
 example : FirstCycle [.arr [.ref 0, .int 1]] 0 := ⟨1, by decide, by decide⟩
